@@ -131,8 +131,14 @@ func (mt *MemTopics) Retained(topic []byte, msgs *[]*message.PublishMessage) err
 
 // Close implements Provider.
 func (mt *MemTopics) Close() error {
+	mt.smu.Lock()
 	mt.sroot = nil
+	mt.smu.Unlock()
+
+	mt.rmu.Lock()
 	mt.rroot = nil
+	mt.rmu.Unlock()
+
 	return nil
 }
 
